@@ -51,7 +51,8 @@ def rotator_for(name):
     return {"EOF": xe.single.EOFRotator, "ComplexEOF": xe.single.ComplexEOFRotator, "HilbertEOF": xe.single.HilbertEOFRotator,
             "CPCCA": xe.cross.CPCCARotator, "MCA": xe.cross.MCARotator, "CCA": xe.cross.CPCCARotator, "RDA": xe.cross.CPCCARotator,
             "ComplexCPCCA": xe.cross.ComplexCPCCARotator, "ComplexMCA": xe.cross.ComplexMCARotator,
-            "HilbertMCA": xe.cross.HilbertMCARotator}.get(name)
+            "HilbertMCA": xe.cross.HilbertMCARotator, "HilbertCPCCA": xe.cross.HilbertCPCCARotator, "HilbertCCA": xe.cross.HilbertCPCCARotator,
+            "HilbertRDA": xe.cross.HilbertCPCCARotator}.get(name)
 
 
 def vals(da, *dims):
